@@ -301,8 +301,8 @@ def check_notify_isolation(ctx, R, modname, qual):
             if isinstance(st, ast.Try):
                 aw = [x for s in st.body for x in ast.walk(s) if isinstance(x, ast.Await)]
                 catch = [h for h in st.handlers if h.type is None or (dotted(h.type) or "").split(".")[-1] in ("Exception", "BaseException")]
-                reraises = any(isinstance(x, ast.Raise) for h in catch for s in h.body for x in ast.walk(s))
-                exits = any(isinstance(x, (ast.Return, ast.Break)) for h in catch for s in h.body for x in ast.walk(s))
+                reraises = any(isinstance(x, ast.Raise) for h in st.handlers for s in h.body for x in ast.walk(s))
+                exits = any(isinstance(x, (ast.Return, ast.Break)) for h in st.handlers for s in h.body for x in ast.walk(s))
                 if aw and catch and not reraises and not exits:
                     ok = True
                 elif aw:
